@@ -404,7 +404,7 @@ def scope(ctx):
         p = param_names(w, skip_self=False)[0]
         want = ['self.symtab.enter_block()', "self.symtab.install_symbol('selected', %s)" % p,
                 '_V = self.accept(node.where_clause)', 'self.symtab.leave_block()', 'return _V.fget()']
-        ok = pm.match(want, body_without_doc(w)) is not None
+        ok = pm.match_canon(want, body_without_doc(w)) is not None
         r.check(ok, '%s: enter_block, bind selected, evaluate, leave_block, return value' % h, w, construct=AW + '.' + h + '.where',
                 key='where-order', msg='%s: the where closure is not exactly enter_block / install selected / evaluate / leave_block / '
                                        'return value' % h)
@@ -414,7 +414,7 @@ def scope(ctx):
                 msg='%s does not pass its where closure to the query' % h)
     bf = repo.func(AW + '.accept_BlockNode')
     want = ['self.symtab.enter_block()', 'self.accept(node.statement_list)', 'self.symtab.leave_block()']
-    r.check(pm.match(want, body_without_doc(bf)) is not None, 'a block evaluates its statements between enter_block and leave_block',
+    r.check(pm.match_canon(want, body_without_doc(bf)) is not None, 'a block evaluates its statements between enter_block and leave_block',
             bf, construct=AW + '.accept_BlockNode', key='block-pairing', msg='accept_BlockNode is not enter_block / statements / leave_block')
     sf = repo.func(AW + '.accept_StatementListNode')
     ok = any(isinstance(n, ast.For) and pm.match('node.children', n.iter) is not None and
@@ -501,7 +501,7 @@ def slots(ctx):
                  oracle='grammar field names of the Node classes (from/to/using, variable/expression, key letter)')
     for h, pats, what in SLOTS:
         fn = repo.func(AW + '.' + h)
-        ok = pm.match(pats, body_without_doc(fn)) is not None
+        ok = pm.match_canon(pats, body_without_doc(fn)) is not None
         r.check(ok, '%s: %s' % (h, what), fn, construct=AW + '.' + h, key='slots',
                 msg='%s no longer has the operand roles of `%s` (expected the statement sequence %s)' % (h, what, pats))
     # select variable is bound to the query result
